@@ -96,7 +96,7 @@ const (
 const (
 	ItHasThrow   = 1   // has a throw method (logs; returns {value:"itT",done:false})
 	ItThrowDone  = 2   // ... which returns {value:"itTD",done:true}
-	ItHasReturn  = 4   // has a return method (logs; returns {value:v,done:true,extra:1})
+	ItHasReturn  = 4   // has a return method (logs; returns {value:[v],done:true,extra:1})
 	ItRetPrim    = 8   // ... which returns the primitive 7
 	ItRetNotDone = 16  // ... which returns {value:"itRN",done:false}
 	ItReent      = 32  // next() first calls self.next(99) and logs the outcome
@@ -732,7 +732,7 @@ function mkit(fl) {
 		log("it.return(" + str(v) + ")");
 		if (fl & 256) throw "itRE";
 		if (fl & 8) return 7;
-		return (fl & 16) ? {value: "itRN", done: false} : {value: v, done: true, extra: 1};
+		return (fl & 16) ? {value: "itRN", done: false} : {value: [v], done: true, extra: 1};
 	};
 	return it;
 }
